@@ -18,6 +18,9 @@ from ..tlc import MachineryError, make_cfg, run_tlc
 TYPEVARS_SRC = "T = TypeVar('T'); U = TypeVar('U'); W = TypeVar('W'); B = TypeVar('B', bound=int); C = TypeVar('C', str, bool)\n"
 
 
+SPELLING = {"builtin": False}       # True: builtin generics and PEP 604 unions (list[T] | int) instead of typing aliases
+
+
 def ann_src(x: dict) -> str:
     k = x["k"]
     if k == "var":
@@ -25,6 +28,10 @@ def ann_src(x: dict) -> str:
     if k in ("int", "str", "bool", "Any"):
         return k
     args = [ann_src(a) for a in x["a"]]
+    if SPELLING["builtin"]:
+        if k == "union":
+            return "(" + " | ".join(args) + ")" if not any(a in ("Any",) for a in args) else "Union[" + ", ".join(args) + "]"
+        return {"list": "list", "dict": "dict"}[k] + "[" + ", ".join(args) + "]"
     return {"list": "List", "dict": "Dict", "union": "Union"}[k] + "[" + ", ".join(args) + "]"
 
 
@@ -125,6 +132,7 @@ def run_case(case: dict, out: dict) -> None:
     if len(table) == 1:
         kinds += ["namedtuple", "typeddict"]
     for kind in kinds:
+        SPELLING["builtin"] = (int(stable_hash([table, kind]), 16) % 2 == 1)
         src = class_source(table, kind)
         ns: dict = {"__name__": "vf_c16_generated"}
         try:
